@@ -9,6 +9,7 @@ from ..core import call_attr, calls_in, dotted, kwarg, norm, slice_parts, text, 
 from . import c09
 
 EXPLANATION = [
+    'C07.index-at-response: no method of ChannelManager enters a channel into le_coc_channels after an await: the destination-CID index is filled while the connection request / response is being processed, so credits sent right behind a response find their channel.',
     'C07.pdu-forwarded: in ChannelManager.on_pdu every path on which the destination channel was found hands the PDU to channel.on_pdu: the dispatcher applies no size filter (MPS is a per-direction limit that the channel itself accounts for together with the credits).',
     'C07.identifier-range: (shared with C09.identifier-range) ChannelManager.next_identifier stays within 1..255 by induction over its paths: the credit frames of a long transfer never carry an identifier that does not fit the one-byte field.',
     'C07.credit-ledger: every normal exit of LeCreditBasedChannel.on_credits has added the received amount to the balance and called process_output() (path rule): no state test can discard returned credits.',
@@ -419,7 +420,33 @@ def pdu_forwarded(ctx):
     fragment_forwarded(ctx, 'C07.pdu-forwarded', 'bumble.l2cap.ChannelManager.on_pdu', 'channel', 'channel.on_pdu')
 
 
+def index_at_response(ctx, rule='C07.index-at-response'):
+    """Credits for a channel are looked up in le_coc_channels by the peer's CID.  The peer may send them right behind its
+    connection response, and both frames are processed before the coroutine that awaits the connection resumes: the channel
+    is therefore entered into le_coc_channels in the (synchronous) response handling, never after an await."""
+    R, p = ctx.r, ctx.p
+    cm = p.cls('bumble.l2cap.ChannelManager')
+    if cm is None:
+        R.bad(rule, 'bumble.l2cap.ChannelManager', 'anchor missing')
+        return
+    n = 0
+    for name, fn in sorted(cm.methods.items()):
+        al = {}
+        for s_ in walk_local(fn):
+            if isinstance(s_, ast.Assign) and len(s_.targets) == 1 and isinstance(s_.targets[0], ast.Name) and 'self.le_coc_channels' in norm(s_.value):
+                al[s_.targets[0].id] = True
+        for st in [x for x in walk_local(fn) if isinstance(x, ast.Assign) and isinstance(x.targets[0], ast.Subscript) and ((dotted(x.targets[0].value) or '') in al or 'self.le_coc_channels' in norm(x.targets[0].value))]:
+            if isinstance(st.value, ast.Dict) or norm(st.value) in ('{}',):
+                continue
+            n += 1
+            aw = [a for a in walk_local(fn) if isinstance(a, ast.Await) and a.lineno < st.lineno]
+            R.check(not aw, rule, f'bumble.l2cap.ChannelManager.{name} | {norm(st)[:50]}', 'entered synchronously (no await before it in this function)',
+                    f'{name} enters the channel into le_coc_channels only after an await (line {aw[0].lineno if aw else 0}): a credit frame the peer sends right behind its connection response is processed first, finds no channel and is dropped, and a disconnection processed in that gap leaves a closed channel registered', p.loc(st))
+    R.check(n >= 2, rule, 'bumble.l2cap.ChannelManager | inserts into le_coc_channels', f'{n} insert sites', f'only {n} insert sites found')
+
+
 RULES = [
+    ('C07.index-at-response', index_at_response),
     ('C07.pdu-forwarded', pdu_forwarded),
     ('C07.identifier-range', identifier_range_rule),
     ('C07.credit-ledger', credit_ledger),
